@@ -573,6 +573,13 @@ def c04_families(tier, seed, ids=None):
     ye.append(mk(ids, [ygen, assign("keep", fn(["a"], block([assign("r", lst([])), fr(["g"], [call("ygen", N("a"))], assign("r", bin_("+", N("r"), lst([N("g")])))), N("r")]))),
                        assign("ks", call("keep", lst([I(3)]))), assign("ka", ix1(N("ks"), I(0))), call("ka")], {"yield-escape": "collected"}))
     out.append(("closures yielded by a generator, called after the loop over it ended", ye, ("value",)))
+    # a returned closure that calls a sibling closure held in a variable of the same definer (known finding D27)
+    sib = []
+    mk2 = assign("mksib", fn(["k"], block([assign("helper", fn([], N("k"))), assign("g", fn([], bin_("+", call("helper"), I(1)))), N("g")])))
+    sib.append(mk(ids, [mk2, assign("gg", call("mksib", I(5))), assign("w", fn(["n"], bin_("*", N("n"), I(87)))), call("w", I(1)), call("gg"), call("deep", I(30)) if False else call("w", I(2)), call("gg")], {"sibling": "direct"}))
+    mk3 = assign("mkpair", fn(["k"], block([assign("inc", fn([], bin_("+", N("k"), I(1)))), assign("both", fn(["x"], bin_("+", call("inc"), N("x")))), assign("k", bin_("*", N("k"), I(10))), N("both")])))
+    sib.append(mk(ids, [mk3, assign("bb", call("mkpair", I(2))), assign("w", fn(["n"], lst([N("n"), N("n")]))), call("w", I(1)), call("bb", I(100))], {"sibling": "updated"}))
+    out.append(("a returned closure calling a sibling closure of the same definer", sib, ("value",)))
     # a call made in a loop body must not change what the iterator closure sees in its captured variable
     upto = assign("upto", fn(["n"], fn([], block([assign("i", I(0)), wh(bin_("<", N("i"), N("n")), block([y(N("i")), assign("i", bin_("+", N("i"), I(1)))]))]))))
     adder = assign("adder", fn(["k"], fn(["x"], bin_("+", N("x"), N("k")))))
